@@ -4,4 +4,4 @@ cd "$(dirname "$0")/.."
 seed=$1; d=.work/quick_$seed; rm -rf $d; mkdir -p $d
 export VERIF_SEED=$seed
 for p in C01 C02 C03 C04 C05 C06 C07 C08 C09 C10 C11 C12 C13 C14 C15 C16 C17 C18 C19 C20; do echo $p; done | \
-  xargs -P 4 -I{} sh -c "./check {} --tier quick > $d/{}.log 2>&1; echo \"{} rc=\$?\" >> $d/summary.txt"
+  xargs -P ${VERIF_PAR:-4} -I{} sh -c "./check {} --tier quick > $d/{}.log 2>&1; echo \"{} rc=\$?\" >> $d/summary.txt"
